@@ -76,7 +76,35 @@ Proof. exact (assert_positive_forced Hp w W0 s G). Qed.
 Theorem C03_model_assert_lt : forall x y u s' cs, run (assert_lt c x y) s = (inl u, s', cs) -> sat cs ->
   exists v, 0 <= v < 2 ^ Z.of_nat (nbits c) /\ ew y - ew x - 1 == v.
 Proof. exact (assert_lt_forced Hp w W0 c s G). Qed.
+Theorem C03_model_assert_le : forall x y u s' cs, run (assert_le c x y) s = (inl u, s', cs) -> sat cs ->
+  exists v, 0 <= v < 2 ^ Z.of_nat (nbits c) /\ ew y - ew x == v.
+Proof. exact (assert_le_forced Hp w W0 c s G). Qed.
+Theorem C03_model_assert_gt : forall x y u s' cs, run (assert_gt c x y) s = (inl u, s', cs) -> sat cs ->
+  exists v, 0 <= v < 2 ^ Z.of_nat (nbits c) /\ ew x - ew y - 1 == v.
+Proof. exact (assert_gt_forced Hp w W0 c s G). Qed.
+Theorem C03_model_assert_ge : forall x y u s' cs, run (assert_ge c x y) s = (inl u, s', cs) -> sat cs ->
+  exists v, 0 <= v < 2 ^ Z.of_nat (nbits c) /\ ew x - ew y == v.
+Proof. exact (assert_ge_forced Hp w W0 c s G). Qed.
+(* assert_eq / assert_ne / assert_nonzero: an accepted proof implies the relation between the wires *)
+Theorem C03_model_assert_eq : forall x y u s' cs, run (assert_eq x y) s = (inl u, s', cs) -> sat cs -> ew x == ew y.
+Proof. exact (assert_eq_forced w s G). Qed.
+Theorem C03_model_assert_ne : forall x y u s' cs, ew (one s) == 1 -> run (assert_ne x y) s = (inl u, s', cs) -> sat cs -> ~ ew x == ew y.
+Proof. exact (assert_ne_forced Hp w s G). Qed.
+Theorem C03_model_assert_nonzero : forall x u s' cs, ew (one s) == 1 -> run (assert_nonzero x) s = (inl u, s', cs) -> sat cs -> ~ ew x == 0.
+Proof. exact (assert_nonzero_forced Hp w s G). Qed.
+(* assert_range(lo, hi) for integer-valued wires inside the bitlength range: lo <= x < hi, the upper bound EXCLUSIVE *)
+Theorem C03_model_assert_range : forall vx lo hi x xlo xhi u s' cs, run (assert_range c x xlo xhi) s = (inl u, s', cs) -> sat cs ->
+  2 ^ (Z.of_nat (nbits c) + 1) <= p -> ew x == vx -> ew xlo == lo -> ew xhi == hi ->
+  - 2 ^ Z.of_nat (nbits c) <= vx - lo < 2 ^ Z.of_nat (nbits c) -> - 2 ^ Z.of_nat (nbits c) <= hi - vx - 1 < 2 ^ Z.of_nat (nbits c) -> lo <= vx < hi.
+Proof. exact (assert_range_int Hp w W0 c s G). Qed.
 End C03_model.
+Print Assumptions C03_model_assert_le.
+Print Assumptions C03_model_assert_gt.
+Print Assumptions C03_model_assert_ge.
+Print Assumptions C03_model_assert_eq.
+Print Assumptions C03_model_assert_ne.
+Print Assumptions C03_model_assert_nonzero.
+Print Assumptions C03_model_assert_range.
 Print Assumptions C03_model_assert_positive.
 Print Assumptions C03_model_assert_lt.
 Print Assumptions C03_assert_eq.
